@@ -384,6 +384,41 @@ theorem drain_eq_mergeSpec (asc : Bool) (p : List (Bytes × Bytes)) (c : Assoc (
     drain asc p c = mergeSpec asc p c :=
   drainFuel_eq_mergeSpec asc _ p c (Nat.lt_succ_self _)
 
+theorem next_length_le (asc : Bool) (p : List (Bytes × Bytes)) (c : Assoc (Option Bytes)) :
+    (next asc p c).1.length + (next asc p c).2.length ≤ p.length + c.length := by
+  obtain ⟨_, h2, _⟩ := skip_spec asc p c
+  unfold next
+  generalize skip asc p c = r at h2
+  obtain ⟨⟨p', c'⟩, b⟩ := r
+  simp only at h2 ⊢
+  cases p' with
+  | nil => simp only [List.length_nil, List.length_tail] at h2 ⊢; omega
+  | cons a p'' =>
+    obtain ⟨kp, vp⟩ := a
+    cases c' with
+    | nil => simp only [List.length_nil, List.length_tail, List.length_cons] at h2 ⊢; omega
+    | cons a c'' =>
+      obtain ⟨kc, vc⟩ := a
+      simp only [List.length_cons] at h2
+      dsimp only
+      cases compare asc kp kc <;> simp only [List.length_cons] <;> omega
+
+/-- **Lazy = eager**: advancing the Go iterator one `Next` at a time yields, item by item, the
+list `drain` computes at creation (the iterator's own state is all that `Valid/Key/Value/Next`
+read or write). -/
+theorem drain_step (asc : Bool) (p : List (Bytes × Bytes)) (c : Assoc (Option Bytes)) :
+    drain asc p c =
+      if valid asc p c then
+        match cur asc p c with
+        | none => []
+        | some kv => kv :: drain asc (next asc p c).1 (next asc p c).2
+      else [] := by
+  have hn := next_length_le asc p c
+  have h1 := drainFuel_eq_mergeSpec asc (p.length + c.length + 1 + 1) p c (by omega)
+  have h2 := drainFuel_eq_mergeSpec asc (p.length + c.length + 1) (next asc p c).1 (next asc p c).2 (by omega)
+  rw [drain_eq_mergeSpec, drain_eq_mergeSpec, ← h1, ← h2]
+  rfl
+
 /-! #### `mergeSpec` is the overlay -/
 
 theorem mem_liveItems {c : Assoc (Option Bytes)} {x : Bytes × Bytes} (h : x ∈ liveItems c) :
